@@ -328,6 +328,15 @@ func c15History(e *core.Env, i int, r *rand.Rand, tnameOut *string, traceOut *[]
 					continue
 				}
 				h := goodHandler(r, ht)
+				if hsrv != nil && r.Intn(3) == 0 {
+					// clients may ask for a service before it is registered (a server that comes up step by step):
+					// not there yet, and there once the registration has been accepted (checked at the end)
+					trace = appendTrace(traceOut, "probe-before-register "+name)
+					if m := servedMethod(hsrv, hbase, d, nil); m != "" {
+						fail("served-before-registered", "the server answers requests for "+m+" of "+name+", which has not been registered")
+						return
+					}
+				}
 				trace = appendTrace(traceOut, fmt.Sprintf("register %s (%d unary, %d streams) %T", name, len(d.Methods), len(d.Streams), h))
 				if p, v := tryRegister(reg, d, h); p {
 					fail("valid-refused", fmt.Sprintf("valid registration panicked: %v", v))
